@@ -217,6 +217,68 @@ func (h *hEnv) apply(op HOp) {
 		}
 		h.flags["failed-open"] = true
 		h.st.Inc("failed_opens")
+	case "ro-damaged":
+		// a read-only open of a damaged head, with any mix of Check/Recover: it may fail or succeed, but it
+		// must not change any log file (only the shared lock is held) and must leave the lock matrix as it was
+		if rw != 0 || ro != 0 {
+			return
+		}
+		names, _ := listLogs(h.dir)
+		if len(names) == 0 {
+			return
+		}
+		head := filepath.Join(h.dir, names[len(names)-1])
+		hi := h.headIndex()
+		origLog, _ := os.ReadFile(head)
+		origIdx, idxErr := os.ReadFile(hi)
+		switch op.N % 3 {
+		case 0:
+			_ = os.WriteFile(head, append(append([]byte{}, origLog...), pattern(3+op.N%40, byte(op.N))...), 0600)
+		case 1:
+			if len(origLog) > 12 {
+				_ = os.WriteFile(head, origLog[:len(origLog)-1-op.N%4], 0600)
+			}
+		case 2:
+			if idxErr == nil && len(origIdx) > 8 {
+				bad := append([]byte{}, origIdx...)
+				bad[len(bad)-1] ^= 0x5A
+				_ = os.WriteFile(hi, bad, 0600)
+			}
+		}
+		before := map[string][]byte{}
+		for n, b := range snapshotDir(h.dir) {
+			if strings.HasSuffix(n, ".log") {
+				before[n] = b
+			}
+		}
+		o := h.opts(true)
+		o.Check, o.Recover = op.RO, op.RmIx || !op.RO
+		l, err := klevdb.Open(h.dir, o)
+		if err == nil {
+			_, _, _ = l.Consume(klevdb.OffsetOldest, 10)
+			_ = l.Close()
+		} else {
+			h.flags["failed-open"] = true
+			h.st.Inc("failed_opens")
+		}
+		for n, b := range snapshotDir(h.dir) {
+			if strings.HasSuffix(n, ".log") {
+				if old, ok := before[n]; !ok || string(old) != string(b) {
+					h.fail("a read-only Open (Check=%v Recover=%v, result %v) changed log file %s (len %d -> %d)", o.Check, o.Recover, err, n, len(before[n]), len(b))
+				}
+				delete(before, n)
+			}
+		}
+		for n := range before {
+			h.fail("a read-only Open (Check=%v Recover=%v) removed log file %s", o.Check, o.Recover, n)
+		}
+		_ = os.WriteFile(head, origLog, 0600)
+		if idxErr == nil {
+			_ = os.WriteFile(hi, origIdx, 0600)
+		} else {
+			_ = os.Remove(hi)
+		}
+		h.st.Inc("ro_opens_of_damaged_head")
 	case "fail-missing":
 		o := h.opts(op.RO)
 		if l, err := klevdb.Open(filepath.Join(h.dir, "no-such-dir"), o); err == nil {
@@ -258,7 +320,7 @@ func runHandlesCase(c *HandlesCase, st *Stats) {
 func genHandlesCase(t *rapid.T) *HandlesCase {
 	c := &HandlesCase{Keys: rapid.Bool().Draw(t, "keys"), Times: rapid.Bool().Draw(t, "times"), Rollover: int64(pick(t, []int{100, 300, 1 << 20}, "rollover"))}
 	n := 5 + uni(t, 40, "nops")
-	kinds := []string{"open-rw", "open-rw", "open-ro", "open-ro", "open-ro", "close", "close", "close", "publish", "publish", "ro-queries", "fail-flags", "fail-corrupt", "fail-missing"}
+	kinds := []string{"open-rw", "open-rw", "open-ro", "open-ro", "open-ro", "close", "close", "close", "publish", "publish", "ro-queries", "fail-flags", "fail-corrupt", "fail-missing", "ro-damaged"}
 	for i := 0; i < n; i++ {
 		c.Ops = append(c.Ops, HOp{Kind: pick(t, kinds, "kind"), Slot: uni(t, 3, "slot"), RO: rapid.Bool().Draw(t, "ro"), N: uni(t, 64, "n"), RmIx: uni(t, 4, "rmix") == 3})
 	}
